@@ -101,12 +101,17 @@ LIBS = {
     "github.com/a/govendor/lib": "package lib\n\ntype Thing struct{ N int }\n\nfunc NewThing() Thing { return Thing{N: 1} }\n",
     "github.com/b/plain": "package plain\n\nimport \"github.com/a/govendor/lib\"\n\ntype Box struct{ T lib.Thing }\n\nfunc NewBox(t lib.Thing) *Box { return &Box{T: t} }\n",
     "github.com/c/vendor2/util": "package util\n\ntype U struct{}\n\nfunc NewU() U { return U{} }\n",
+    # imported for its side effect only (blank import in the injector file), and through a dot import
+    "github.com/d/driver": "package driver\n\nvar Registered = 0\n\nfunc init() { Registered++ }\n",
+    "github.com/e/dotted/vendor3": "package vendor3\n\ntype V struct{}\n\nfunc NewV() V { return V{} }\n",
 }
 APP = {
     "app.go": "package app\n\nimport (\n\t\"github.com/b/plain\"\n\t\"github.com/c/vendor2/util\"\n)\n\ntype App struct {\n\tB *plain.Box\n\tU util.U\n}\n\n"
               "func NewApp(b *plain.Box, u util.U) App { return App{B: b, U: u} }\n",
     "wire.go": "//go:build wireinject\n// +build wireinject\n\npackage app\n\nimport (\n\t\"github.com/a/govendor/lib\"\n\t\"github.com/b/plain\"\n"
-               "\t\"github.com/c/vendor2/util\"\n\t\"github.com/google/wire\"\n)\n\nfunc Init() App {\n\twire.Build(lib.NewThing, plain.NewBox, util.NewU, NewApp)\n\treturn App{}\n}\n",
+               "\t\"github.com/c/vendor2/util\"\n\t_ \"github.com/d/driver\"\n\t. \"github.com/e/dotted/vendor3\"\n\t\"github.com/google/wire\"\n)\n\n"
+               "func Init() App {\n\twire.Build(lib.NewThing, plain.NewBox, util.NewU, NewApp)\n\treturn App{}\n}\n\n"
+               "func InitV() V {\n\twire.Build(NewV)\n\treturn V{}\n}\n",
 }
 
 
